@@ -124,6 +124,87 @@ def rename_specs(srcs, rels, limit, rng):
     return out
 
 
+def repo_keywords(srcs):
+    """every identifier used as a keyword-argument name, attribute or string anywhere in the repo or its tests: a
+    parameter with such a name may be passed by keyword or looked up reflectively, so renaming it is not known to
+    preserve behaviour"""
+    kws = set()
+    texts = list(srcs.values())
+    for p in glob.glob(REPO + "/tests/**/*.py", recursive=True) + glob.glob(REPO + "/examples/**/*.py", recursive=True):
+        try:
+            texts.append(open(p).read())
+        except OSError:
+            pass
+    for v in texts:
+        try:
+            t = ast.parse(v)
+        except SyntaxError:
+            continue
+        for n in ast.walk(t):
+            if isinstance(n, ast.keyword) and n.arg:
+                kws.add(n.arg)
+            elif isinstance(n, ast.Constant) and isinstance(n.value, str) and n.value.isidentifier():
+                kws.add(n.value)
+    return kws
+
+
+def param_candidates(tree, kws):
+    """(function, parameter) pairs whose rename keeps behaviour: never passed by keyword anywhere, not rebound by a
+    nested scope, not declared global/nonlocal, method overrides excluded by the keyword test (same name in every sibling
+    would be needed only for keyword calls)"""
+    out = []
+    for fn in ast.walk(tree):
+        if not isinstance(fn, (ast.FunctionDef, ast.AsyncFunctionDef)):
+            continue
+        a = fn.args
+        params = [x.arg for x in a.posonlyargs + a.args]
+        nested = set()
+        declared = set()
+        uses = collections.Counter()
+        for n in ast.walk(fn):
+            if isinstance(n, (ast.Global, ast.Nonlocal)):
+                declared.update(n.names)
+            elif isinstance(n, ast.Name):
+                uses[n.id] += 1
+            elif isinstance(n, (ast.FunctionDef, ast.AsyncFunctionDef, ast.Lambda)) and n is not fn:
+                b = n.args
+                nested.update(x.arg for x in b.posonlyargs + b.args + b.kwonlyargs)
+                if b.vararg:
+                    nested.add(b.vararg.arg)
+                if b.kwarg:
+                    nested.add(b.kwarg.arg)
+                if not isinstance(n, ast.Lambda):
+                    nested.add(n.name)
+                for m in ast.walk(n):
+                    if isinstance(m, ast.Name) and isinstance(m.ctx, ast.Store):
+                        nested.add(m.id)
+            elif isinstance(n, ast.ClassDef):
+                nested.update(m.id for m in ast.walk(n) if isinstance(m, ast.Name))
+        cands = [p for p in params if p not in ("self", "cls") and p not in kws and p not in nested and p not in declared
+                 and uses[p] >= 2 and not p.startswith("__") and (p + "_renamed") not in uses]
+        if cands:
+            out.append((fn, max(cands, key=lambda n: uses[n])))
+    return out
+
+
+class _RenParam(_Ren):
+    def visit_arg(self, n):
+        if n.arg == self.old:
+            n.arg = self.new
+        return n
+
+
+def renparam_specs(srcs, rels, limit, rng):
+    kws = repo_keywords(srcs)
+    out = []
+    for rel in rels:
+        cands = param_candidates(ast.parse(srcs[rel]), kws)
+        rng.shuffle(cands)
+        for fn, name in cands[:limit]:
+            out.append(("renparam", rel, fn.lineno, fn.name, name))
+    return out
+
+
 _SRCS = None
 
 
@@ -162,6 +243,14 @@ def build_variant(spec):
     _, rel, lineno, fname, name = spec
     t2 = ast.parse(srcs[rel])
     target = [f for f in ast.walk(t2) if isinstance(f, (ast.FunctionDef, ast.AsyncFunctionDef)) and f.lineno == lineno and f.name == fname][0]
+    if kind == "renparam":
+        # only the function's own parameter list and its body; defaults/annotations are evaluated outside
+        for x in target.args.posonlyargs + target.args.args:
+            if x.arg == name:
+                x.arg = name + "_renamed"
+        for st in target.body:
+            _Ren(name, name + "_renamed").visit(st)
+        return {**srcs, rel: ast.unparse(t2) + "\n"}
     _Ren(name, name + "_renamed").visit(target)
     return {**srcs, rel: ast.unparse(t2) + "\n"}
 
@@ -213,6 +302,8 @@ def main():
             print(f"{prop}: unchanged tree gives {code}: {msg}")
             continue
         specs = [("reformat",), ("shift",), ("noise",)] + rename_specs(srcs, sorted(consulted), max_rename, rng)
+        if "--renparam" in sys.argv:
+            specs = renparam_specs(srcs, sorted(consulted), max_rename, rng)
         if "--ifswap" in sys.argv:
             specs = [("ifswap", rel) for rel in sorted(consulted)]
         jobs += [(prop, s) for s in specs]
